@@ -15,7 +15,7 @@ import numpy as np
 import z3
 from pyvc.api import *
 
-native("C11", "c11_compilers", "native/c11_compilers.py",
+native(["C11", "C04"], "c11_compilers", "native/c11_compilers.py",
        bound="12 (quick) / 80 (thorough) generated Gaussian circuits per compiler on 4-11 mode registers (gaussian_unitary, passive: exact "
              "comparison with the documented action); 6 / 18 hybrid circuits on 2-3 modes for gaussian_merge (Fock simulator, cutoff 9 / 7, "
              "escalated by 4 on a discrepancy)", timeout=1500)
